@@ -56,7 +56,7 @@ def worker_init():
 
 def generate(tier, seed):
     rng = np.random.default_rng(2000 + seed)
-    n_eos, n_v = (150, 8) if tier == "quick" else (3000, 12)
+    n_eos, n_v = (200, 8) if tier == "quick" else (3000, 12)
     cases = []
     for i in range(n_eos):
         spec = E.random_spec(rng)
@@ -108,6 +108,11 @@ def propagated_tol(probe, m, cls):
             return K_HYBR * max(atol * abs(x) * (rng_ / math.pi) / (1 + x * x), 1e-13 * T)
 
         dp, dm = dT(Tp), dT(Tm)
+        # only differences between evaluations that are consistent among themselves enter
+        # (for a hybrid v- follows c_b(T-)); the reported v- must not inflate its own
+        # tolerance
+        vm0 = math.sqrt(probe.eos.ref("L", Tm)["csq"]) if cls == "hybrid" else vm
+        base = probe.flux_residuals(vp, vm0, Tp, Tm)
         for sp, sm in itertools.product((-1, 0, 1), repeat=2):
             if sp == 0 and sm == 0:
                 continue
@@ -116,8 +121,8 @@ def propagated_tol(probe, m, cls):
             if cls == "hybrid":
                 vm2 = math.sqrt(probe.eos.ref("L", Tm2)["csq"])
             v = probe.flux_residuals(vp, vm2, Tp + sp * dp, Tm2)
-            spread1 = max(spread1, abs(v[0] - r0[0]))
-            spread2 = max(spread2, abs(v[1] - r0[1]))
+            spread1 = max(spread1, abs(v[0] - base[0]))
+            spread2 = max(spread2, abs(v[1] - base[1]))
     return r0, spread1 + FLOOR, spread2 + FLOOR
 
 
@@ -126,7 +131,9 @@ def exact_matching_exists(probe, vw):
     flux-validated) matchDeflagOrHyb + the reference integrator for a sign change of
     T_n'(v+) - T_n."""
     hyd = probe.hyd
-    csqn = probe.eos.ref("H", probe.Tn)["csq"]
+    # v+ can reach cs^2(T+)/vw with T+ > T_n: take the largest sound speed ahead of the
+    # wall over a generous temperature range for the upper end of the scan
+    csqn = max(probe.eos.ref("H", probe.Tn * f)["csq"] for f in np.linspace(1.0, 2.0, 21))
     vpmax = min(vw, csqn / vw)
     vals = []
     for vp in np.linspace(1e-3, vpmax * (1 - 1e-9), 40):
@@ -206,7 +213,7 @@ def run_case(case):
                 "obs": {"error": repr(exc)[:200]}, "viol": [], "mon": mon}
     hyd, tmpl = probe.hyd, probe.tmpl
     cb = math.sqrt(eos.ref("L", probe.Tn)["csq"])
-    vws, kinds = HY.velocities(rng, hyd, case["nv"], cb)
+    vws, kinds = HY.velocities(rng, hyd, case["nv"], cb, probe)
     viol, classes, keys, rows = [], [], [], []
     is_template_form = spec["family"] in ("bag", "template")
     for vw, kind in zip(vws, kinds):
